@@ -41,6 +41,38 @@ CATALOGS = {
 }
 
 
+# catalogs that also know models whose <project>.<name> collides with a <schema>.<table> of the integration
+MODEL_META = [{'name': 'pred', 'integration_name': 'mindsdb'}, {'name': 'tbl', 'integration_name': 'proj'}]
+CATALOGS['with-models'] = dict(integrations=['int1', 'int2'], default_namespace='mindsdb',
+                               predictor_metadata=[dict(m) for m in MODEL_META])
+CATALOGS['with-models-dicts'] = dict(
+    integrations=[{'name': 'int1', 'class_type': 'sql', 'type': 'data'}, {'name': 'proj', 'class_type': 'project', 'type': 'project'}],
+    default_namespace='mindsdb', predictor_metadata=[dict(m) for m in MODEL_META])
+
+
+@st.composite
+def schema_shapes(draw):
+    """Single-integration queries over schema-qualified tables (int1.<schema>.<table>); the schema/table names are
+    sometimes those of a registered model.  Judged structurally only (no 3-part names in the reference engine)."""
+    q = draw(st.sampled_from(['int1', 'INT1', 'Int1']))
+    sch, tb = draw(st.sampled_from([('mindsdb', 'pred'), ('proj', 'tbl'), ('sch', 't1'), ('public', 'pred'), ('mindsdb', 't2')]))
+    al = draw(st.sampled_from(['', ' AS x', ' x']))
+    ref = 'x' if al else f'{sch}.{tb}'
+    cols = draw(st.sampled_from([f'{ref}.a AS c0, {ref}.b AS c1', '*', f'{ref}.a', f'count(*) AS c0', f'{q}.{sch}.{tb}.a AS c0' if not al else f'{ref}.b AS c0']))
+    where = draw(st.sampled_from(['', f' WHERE ({ref}.a = 1)', f' WHERE ({ref}.a > 1)', f' WHERE (({ref}.a = 1) AND ({ref}.b < 3))',
+                                  f' WHERE ({ref}.a IN (SELECT s.a FROM {q}.{sch}.t9 AS s))']))
+    tail = draw(st.sampled_from(['', ' LIMIT 2', f' ORDER BY {ref}.a', f' GROUP BY {ref}.a' if cols.startswith('count') else '']))
+    shape = draw(st.sampled_from(['plain', 'plain', 'join', 'union']))
+    sql = f'SELECT {cols} FROM {q}.{sch}.{tb}{al}{where}{tail}'
+    if shape == 'join' and al:
+        sql = f'SELECT x.a AS c0, y.c AS c1 FROM {q}.{sch}.{tb} AS x JOIN {q}.{sch}.t9 AS y ON (x.a = y.a){where}'
+    elif shape == 'union' and cols != '*':
+        sql = f'SELECT {ref}.a AS c0 FROM {q}.{sch}.{tb}{al} UNION SELECT z.a AS c0 FROM {q}.sch.t8 AS z'
+    tags = ['shape:schema-qualified'] + (['schema:collides-with-model'] if (sch, tb) in (('mindsdb', 'pred'), ('proj', 'tbl')) else [])
+    return {'sql': sql, 'meta': {'order_cols': [], 'total_order': False, 'limit': False, 'tags': tags, 'structure_only': True},
+            'data': {}, 'catalog': draw(st.sampled_from(['with-models', 'with-models-dicts', 'names', 'dicts']))}
+
+
 def prepare(tier):
     import mindsdb_sql.planner  # noqa
 
@@ -88,12 +120,14 @@ def judge(case, col):
     tags = list(meta.get('tags', []))
     cfg = {'catalog': cat}
     classes = ['catalog:' + cat] + ['tag:' + t for t in tags]
-    G = engine.connect(model.engine_tables(data, PLACES), attach=['int1'])
-    try:
-        names_t, truth = engine.run(G, sql)
-    except sqlite3.Error as e:
-        col.excluded('ground truth not executable: ' + str(e)[:50])
-        return []
+    structure_only = bool(meta.get('structure_only'))
+    if not structure_only:
+        G = engine.connect(model.engine_tables(data, PLACES), attach=['int1'])
+        try:
+            names_t, truth = engine.run(G, sql)
+        except sqlite3.Error as e:
+            col.excluded('ground truth not executable: ' + str(e)[:50])
+            return []
     try:
         tree = parse_sql(sql, 'mindsdb')
     except Exception as e:
@@ -125,6 +159,9 @@ def judge(case, col):
     if diffs:
         out.append(findings.record('structural-change', diffs[0].split(':')[0].split('.')[-1][:40], tags, cfg,
                                    '; '.join(diffs[:3]), sql))
+    if structure_only:
+        col.case((cat, sql), True, classes + ['structure-only'], {'sql': sql, 'catalog': cat, 'pushed': str(q)})
+        return out
     # (2) execution
     D = engine.connect(model.engine_tables(data, {}))
     try:
@@ -161,6 +198,8 @@ def judge(case, col):
 
 @st.composite
 def cases(draw):
+    if draw(st.integers(0, 9)) == 0:
+        return draw(schema_shapes())
     c = draw(model.queries(CFG))
     c['data'] = draw(model.table_data())
     c['catalog'] = draw(st.sampled_from(sorted(CATALOGS)))
